@@ -15,7 +15,9 @@ EXTENDS Naturals, Sequences, TLC, Json
 CONSTANTS Slot,    \* slot width in bytes (32 in production)
           Lens,    \* candidate minimal byte lengths of a coordinate (subset of 0..Slot; 0 is the value zero);
                    \* Slot+1 stands for a full-width coordinate from the TOP of the base field (>= the scalar-field order r, < p)
-          Align    \* "right" = the specification; "left" = mutant (what copy(slot, v.Bytes()) does)
+          TZs,     \* candidate numbers of TRAILING zero bytes of a coordinate (value divisible by 256^t); at most one coordinate per proof has t > 0
+          Align,   \* "right" = the specification; "left" = mutant (what copy(slot, v.Bytes()) does)
+          Trim     \* "leading" = the specification (a number has no leading zeros); "both" = mutant (bytes.Trim instead of TrimLeft)
 
 NC == 8
 CoordName == <<"A.x", "A.y", "B.x1", "B.x0", "B.y1", "B.y0", "C.x", "C.y">>
@@ -24,32 +26,37 @@ JsonPath  == <<"ar[0]", "ar[1]", "bs[0][0]", "bs[0][1]", "bs[1][0]", "bs[1][1]",
 Z == <<0, 0>>
 Zeros(n) == [j \in 1..n |-> Z]
 W(k) == IF k = Slot + 1 THEN Slot ELSE k                 \* byte width of a length class
-Minimal(i, k) == [j \in 1..W(k) |-> <<i, j>>]           \* minimal big-endian byte string of coordinate i
-SlotOf(i, k)  == Zeros(Slot - W(k)) \o Minimal(i, k)       \* its fixed-width big-endian form
+\* minimal big-endian byte string of coordinate i with t trailing zero bytes (t < width: the leading byte stays non-zero)
+Minimal(i, k, t) == [j \in 1..W(k) |-> IF j > W(k) - t /\ j > 1 THEN Z ELSE <<i, j>>]
+SlotOf(i, k, t)  == Zeros(Slot - W(k)) \o Minimal(i, k, t)       \* its fixed-width big-endian form
 RECURSIVE Strip(_)
 Strip(s) == IF s # <<>> /\ Head(s) = Z THEN Strip(Tail(s)) ELSE s     \* a number has no leading zeros
+RECURSIVE StripR(_)
+StripR(s) == IF s # <<>> /\ s[Len(s)] = Z THEN StripR(SubSeq(s, 1, Len(s) - 1)) ELSE s
+Render(s) == IF Trim = "both" THEN StripR(Strip(s)) ELSE Strip(s)
 Place(num) == IF Align = "right" THEN Zeros(Slot - Len(num)) \o num
                                  ELSE num \o Zeros(Slot - Len(num))
 
-VARIABLES phase, lens, raw, doc, buf
-vars == <<phase, lens, raw, doc, buf>>
+VARIABLES phase, lens, tz, raw, doc, buf
+vars == <<phase, lens, tz, raw, doc, buf>>
 
 Init == /\ phase = "proof" /\ lens \in [1..NC -> Lens]
-        /\ raw = [i \in 1..NC |-> SlotOf(i, lens[i])]
+        /\ tz \in {f \in [1..NC -> TZs] : \A i, j \in 1..NC : f[i] > 0 /\ f[j] > 0 => i = j}
+        /\ raw = [i \in 1..NC |-> SlotOf(i, lens[i], tz[i])]
         /\ doc = <<>> /\ buf = <<>>
 \* MarshalJSON: WriteRawTo, split into NC slots, each rendered as a number
 Marshal == /\ phase = "proof" /\ phase' = "json"
-           /\ doc' = [i \in 1..NC |-> [path |-> JsonPath[i], num |-> Strip(raw[i])]]
-           /\ UNCHANGED <<lens, raw, buf>>
+           /\ doc' = [i \in 1..NC |-> [path |-> JsonPath[i], num |-> Render(raw[i])]]
+           /\ UNCHANGED <<lens, tz, raw, buf>>
 \* UnmarshalJSON: parse the NC numbers, lay each one out in its slot, hand the buffer to gnark's reader
 Unmarshal == /\ phase = "json" /\ phase' = "decoded"
              /\ buf' = [i \in 1..NC |-> Place(doc[i].num)]
-             /\ UNCHANGED <<lens, raw, doc>>
+             /\ UNCHANGED <<lens, tz, raw, doc>>
 Next == Marshal \/ Unmarshal
 Spec == Init /\ [][Next]_vars
 
 RoundTrip == phase = "decoded" => buf = raw
-EVMOrder  == phase = "json" => \A i \in 1..NC : doc[i].path = JsonPath[i] /\ doc[i].num = Minimal(i, lens[i])
+EVMOrder  == phase = "json" => \A i \in 1..NC : doc[i].path = JsonPath[i] /\ doc[i].num = Minimal(i, lens[i], tz[i])
 \* behaviours for replay: the length vector, with the coordinate names in JSON order
-Export == phase = "decoded" => PrintT("TRACE " \o ToJson([lens |-> lens, names |-> CoordName, paths |-> JsonPath]))
+Export == phase = "decoded" => PrintT("TRACE " \o ToJson([lens |-> lens, tz |-> tz, names |-> CoordName, paths |-> JsonPath]))
 ====
